@@ -74,6 +74,26 @@ Theorem C11_contact_force :
 Proof. exact contact_force_elliptic. Qed.
 Print Assumptions C11_contact_force.
 
+(* mj_instantiateContact's efc_address bookkeeping (contacts as (exclude, rows added)): a contact has a
+   non-negative address exactly when it is included, excluded contacts (in the gap, no dofs affected, passive)
+   get -1, and an included contact's address is start + the rows of the included contacts before it, i.e. the
+   first of its own rows; mj_contactForce of a contact without address is zero *)
+Theorem C11_contact_addresses :
+  forall (cs : list (Z * Z)) (start : Z) (k : nat),
+    (0 <= start)%Z -> (forall c, In c cs -> (0 <= snd c)%Z) -> (k < length cs)%nat ->
+    ((0 <= nth k (contact_addresses start cs) (-1))%Z <-> fst (nth k cs (1%Z, 0%Z)) = 0%Z) /\
+    (fst (nth k cs (1%Z, 0%Z)) <> 0%Z -> nth k (contact_addresses start cs) (-1)%Z = (-1)%Z) /\
+    (fst (nth k cs (1%Z, 0%Z)) = 0%Z ->
+       nth k (contact_addresses start cs) (-1)%Z = (start + included_rows (firstn k cs))%Z).
+Proof. exact contact_addresses_full. Qed.
+Print Assumptions C11_contact_addresses.
+
+Theorem C11_contact_force_rowless :
+  forall (pyramidal : bool) (efc_force fr : list R) (adr dim : Z) (adhesion : R),
+    (adr < 0)%Z -> contact_force_gated pyramidal efc_force adr fr dim adhesion = repeat 0 6.
+Proof. exact contact_force_rowless. Qed.
+Print Assumptions C11_contact_force_rowless.
+
 (* dual solvers: the dry-friction row update of solNoSlip / solPGS (force and bound of the same row)
    stays within the row's frictionloss and is mju_clip to [-floss, floss]; the noslip update of a pair of
    opposing pyramid edges keeps both edges non-negative and their sum (the normal share) unchanged *)
